@@ -292,13 +292,13 @@ def asC02 (op : HF.Op) (r : HF.Res) : String :=
   | .block _, .dup => "dup" | .block _, _ => "rej"
   | .header _, .main => "main" | .header _, .side => "side" | .header _, _ => "rej"
 
-def runHF (ps : List Nat) (bad : List Nat) (ops : List (Option HF.Op)) : String :=
+def runHF (ps : List Nat) (bad : List Nat) (maxOrph : Nat) (ops : List (Option HF.Op)) : String :=
   let P := Spec.parentOf ps
   let nodes := List.range (ps.length + 1)
   let depths : Array Nat := nodes.foldl
     (fun (a : Array Nat) n => a.push (match P n with | none => 0 | some p => a.getD p 0 + 1)) #[]
   let depth := fun n => depths.getD n 0
-  let e : HF.Env := { P := P, W := fun n => depth n + 1, bad := fun n => bad.contains n }
+  let e : HF.Env := { P := P, W := fun n => depth n + 1, bad := fun n => bad.contains n, maxOrphans := maxOrph }
   let obs (s : HF.State) : String :=
     let fork := match HF.forkNode e s.b s.h with | some f => depth f | none => 0
     let tips := (HF.chainTips e depth nodes s.b s.h).foldr insertById []
@@ -329,7 +329,7 @@ def runHF (ps : List Nat) (bad : List Nat) (ops : List (Option HF.Op)) : String 
   let plain := ops.filterMap id
   let bo := (HF.run e {} (plain.filter HF.Op.isBlock)).b.tip
   -- C02's ChainCore must tell the same story (histories without a restart)
-  let c02ok := if plain.length ≠ ops.length then true else
+  let c02ok := if plain.length ≠ ops.length || maxOrph != 100 then true else
     -- (a header accepted by C02's machine reads `ok` in versions that do not model the best header)
     ((c02Trace P bad plain).zip trace).all (fun (c, t) =>
       c.2 == t.2.2 && (c.1 == asC02 t.1 t.2.1 || (c.1 == "ok" && !t.2.1.isErr)))
@@ -359,8 +359,12 @@ def handle1 : List String → String
   | "hf" :: segs :: bad :: ds =>
     match parseSegs segs, parseLoc bad with
     | some ps, some bad =>
+      -- optional `mo=<n>`: the orphan pool bound read from the tree by the harness (default 100)
+      let (mo, ds) := match ds with
+        | d :: rest => if d.startsWith "mo=" then ((d.drop 3).toString.toNat?.getD 100, rest) else (100, ds)
+        | [] => (100, ds)
       match ds.mapM (parseDelivery ps.length) with
-      | some ops => runHF ps bad ops
+      | some ops => runHF ps bad mo ops
       | none => "bad-op"
     | _, _ => "bad-op"
   | _ => "bad-op"
